@@ -105,10 +105,10 @@ theorem c19_free_path (s : State) (f : Frame) (hfind : s.frames.find? (fun g => 
 /-- **No heap memory after warm-up** (`reusable_storage`, `reusable_storage_mtsafe` with its block free,
 `reusable_buffer_storage`): once a frame of `n` bytes was served from the storage's own block, *every* later
 request of at most `n` bytes — after any further history that does not destroy the storage or switch to the other
-storage object (moves of the storage are allowed: the capacity moves with the block) — is served without any heap
-call. -/
+storage object or contain a request whose `operator new` fails (moves of the storage and throwing factories are
+allowed: the capacity moves with the block / is untouched) — is served without any heap call. -/
 theorem c19_warm_no_alloc {c : Cfg} (hc : CfgOK c) (hr : Reusing c.pol) (ops1 ops2 : List Op) (k k' n m : Nat)
-    (hm : m ≤ n) (hnd : Op.destroy ∉ ops2 ∧ Op.swapobj ∉ ops2)
+    (hm : m ≤ n) (hnd : Op.destroy ∉ ops2 ∧ Op.swapobj ∉ ops2 ∧ ∀ k sz, Op.allocFail k sz ∉ ops2)
     (hb1 : c.pol = Policy.mtsafe → (run (init c) ops1).busy = false)
     (hok : (run (init c) (ops1 ++ Op.alloc k n :: ops2)).ok = true)
     (hb2 : c.pol = Policy.mtsafe → (run (init c) (ops1 ++ Op.alloc k n :: ops2)).busy = false) :
@@ -230,6 +230,7 @@ theorem c19_extra_factory_throws {c : Cfg} (hc : CfgOK c) {s : State} (h : Reach
     | free id => exfalso; have := alloc_res_kind s k sz; rw [hres] at this; simp at this
     | obj a b => exfalso; have := alloc_res_kind s k sz; rw [hres] at this; simp at this
     | unit => exfalso; have := alloc_res_kind s k sz; rw [hres] at this; simp at this
+    | failed => exfalso; have := alloc_res_kind s k sz; rw [hres] at this; simp at this
     | rejected =>
       simp only [hres]
       have := alloc_rejected_same s k sz hres
@@ -263,6 +264,71 @@ example : (run (init { pol := Policy.mtsafe, extra := 16 }) [Op.alloc 0 40, Op.f
     ∧ (run (init { pol := Policy.default, extra := 40 }) [Op.allocThrow 0 24]).heap.live = []
     ∧ (run (init { pol := Policy.default, extra := 40 }) [Op.allocThrow 0 24]).heap.dels = [0]
     ∧ (run (init { pol := Policy.mtsafe, extra := 16 }) [Op.alloc 0 40, Op.free 0, Op.allocThrow 0 40]).ok = true := by decide
+
+/-- **`reusable_buffer_storage<std::vector<Item>>` rounds up for every element size** (not only powers of two: 3, 12,
+24-byte elements …): after a request the user's buffer — the vector's `size()`, not merely its capacity — holds at
+least the frame (`ceil(need / sizeof(Item)) * sizeof(Item) ≥ need` for every `sizeof(Item) ≥ 1`). -/
+theorem c19_buffer_user_size (s : State) (i : Nat) (hi : 0 < i) (hp : s.cfg.pol = Policy.buffer i) (k sz : Nat) :
+    need s.cfg sz ≤ (step s (Op.alloc k sz)).1.vsize * i := by
+  have h1 := ceil_mul_ge (need s.cfg sz) i hi
+  have h2 : (need s.cfg sz + i - 1) / i ≤ (bufResized s i sz).vsize := by
+    unfold bufResized
+    split
+    · rw [vresize_vsize]; exact Nat.le_refl _
+    · omega
+  have h3 := Nat.mul_le_mul_right i h2
+  show need s.cfg sz ≤ (stepAlloc s k sz).1.vsize * i
+  simp only [stepAlloc, hp, allocBuffer, addFrame]
+  omega
+
+/-- **A failed growth leaves an empty, reusable storage** (`reusable_storage::alloc` / `reusable_storage_mtsafe::alloc`,
+repaired): when `operator new` throws `bad_alloc` while the block is being grown, the old block has been deleted
+exactly once, `_ptr` is null, `_capacity` 0, `_busy` clear, no frame was created and all frames that live in private
+blocks are untouched; the state satisfies the invariant again (`allocFail` is an ordinary step, so every theorem
+above covers histories with failed allocations) — in particular the next request obtains a fresh block. -/
+theorem c19_failed_growth_leaves_empty_storage {c : Cfg} (hc : CfgOK c) (hp : c.pol = Policy.reusable ∨ c.pol = Policy.mtsafe)
+    {s : State} (h : Reachable c s) (k sz : Nat) (hfree : s.busy = false) (hg : s.cap < need c sz)
+    (hok' : (step s (Op.allocFail k sz)).1.ok = true) :
+    (step s (Op.allocFail k sz)).2 = Res.failed ∧
+    (step s (Op.allocFail k sz)).1.ptr = none ∧ (step s (Op.allocFail k sz)).1.cap = 0 ∧
+    (step s (Op.allocFail k sz)).1.busy = false ∧ (step s (Op.allocFail k sz)).1.frames = s.frames ∧
+    (step s (Op.allocFail k sz)).1.heap = s.heap.delOpt s.ptr ∧
+    Inv (step s (Op.allocFail k sz)).1 ∧
+    ∀ k' m, (step (step s (Op.allocFail k sz)).1 (Op.alloc k' m)).2
+        = Res.alloc s.nextFrame (Blk.heap (step s (Op.allocFail k sz)).1.heap.next) := by
+  have hcfg : s.cfg = c := reachable_cfg h
+  have hr : Reachable c (step s (Op.allocFail k sz)).1 := by
+    obtain ⟨ops, rfl⟩ := h
+    exact ⟨ops ++ [Op.allocFail k sz], by simp [run, List.foldl_append]⟩
+  have hi := reachable_inv hc hr hok'
+  have hg' : need s.cfg sz > s.cap := by rw [hcfg]; exact hg
+  rcases hp with hp | hp
+  · have hpol : s.cfg.pol = Policy.reusable := by rw [hcfg]; exact hp
+    have e : step s (Op.allocFail k sz) =
+        ({ s with heap := s.heap.delOpt s.ptr, ptr := none, cap := 0, vsize := 0, ok := s.ok && s.frames.isEmpty }, Res.failed) := by
+      simp only [step, stepAllocFail, hpol, hg', if_true]
+    rw [e] at hi ⊢
+    refine ⟨rfl, rfl, rfl, hfree, rfl, rfl, hi, ?_⟩
+    intro k' m
+    simp only [step, stepAlloc, hpol, rsAlloc, State.ptrBlk]
+    have : need s.cfg m > 0 ∨ need s.cfg m = 0 := by omega
+    rcases this with h0 | h0
+    · simp [h0, Heap.delOpt]
+      cases s.ptr <;> simp [Heap.delOpt]
+    · exfalso
+      -- a request of 0 bytes on an empty reusable_storage returns nullptr, not a block
+      exact absurd h0 (by
+        have := hg'; omega)
+  · have hpol : s.cfg.pol = Policy.mtsafe := by rw [hcfg]; exact hp
+    have e : step s (Op.allocFail k sz) =
+        ({ s with heap := s.heap.delOpt s.ptr, ptr := none, cap := 0, vsize := 0, busy := false }, Res.failed) := by
+      simp only [step, stepAllocFail, hpol, hfree, hg', if_true, Bool.false_eq_true, if_false]
+    rw [e] at hi ⊢
+    refine ⟨rfl, rfl, rfl, rfl, rfl, rfl, hi, ?_⟩
+    intro k' m
+    have hm : need s.cfg m > 0 := by simp only [need, hpol, trailer]; omega
+    simp only [step, stepAlloc, hpol, Bool.false_eq_true, if_false, rsAlloc, State.ptrBlk, hm, if_true]
+    cases s.ptr <;> simp [Heap.delOpt]
 
 /-- **`static_storage<space>`**: a frame is placed in the object's own buffer exactly when frame + trailer fit
 (`need ≤ space`, the library's `assert`); with the `assert` compiled in a larger request is rejected and nothing
